@@ -304,6 +304,9 @@ pub fn pad<T: std::fmt::Display + CenterRightNumbers>(
     alignment: Align,
     precision: Option<usize>,
 ) -> String {
+    // A formatting width or precision above u16::MAX makes format! panic.
+    let width = width.min(u16::MAX as usize);
+    let precision = precision.map(|p| p.min(u16::MAX as usize));
     let space = s.center_right_space(alignment, width);
     let mut result = match precision {
         None => match alignment {
